@@ -64,6 +64,37 @@ func (a *ActionHeader) UnmarshalBinary(data []byte) error {
 	return nil
 }
 
+// Action structure for the actions that consist of the 8-byte ofp_action_header
+// alone (type, length and 4 bytes of padding): OFPAT_COPY_TTL_OUT,
+// OFPAT_COPY_TTL_IN, OFPAT_DEC_MPLS_TTL and OFPAT_POP_PBB.
+type ActionHeaderOnly struct {
+	ActionHeader
+	pad []byte // 4bytes
+}
+
+func (a *ActionHeaderOnly) Len() (n uint16) {
+	return a.ActionHeader.Len() + 4
+}
+
+func (a *ActionHeaderOnly) MarshalBinary() (data []byte, err error) {
+	data, err = a.ActionHeader.MarshalBinary()
+	if err != nil {
+		return
+	}
+
+	// Padding
+	bytes := make([]byte, 4)
+	data = append(data, bytes...)
+	return
+}
+
+func (a *ActionHeaderOnly) UnmarshalBinary(data []byte) error {
+	if len(data) < int(a.Len()) {
+		return errors.New("The []byte is too short to unmarshal an ActionHeaderOnly message.")
+	}
+	return a.ActionHeader.UnmarshalBinary(data[:4])
+}
+
 // Decode Action types.
 func DecodeAction(data []byte) (Action, error) {
 	t := binary.BigEndian.Uint16(data[:2])
@@ -72,13 +103,13 @@ func DecodeAction(data []byte) (Action, error) {
 	case ActionType_Output:
 		a = new(ActionOutput)
 	case ActionType_CopyTtlOut:
-		a = new(ActionHeader)
+		a = new(ActionHeaderOnly)
 	case ActionType_CopyTtlIn:
-		a = new(ActionHeader)
+		a = new(ActionHeaderOnly)
 	case ActionType_SetMplsTtl:
 		a = new(ActionMplsTtl)
 	case ActionType_DecMplsTtl:
-		a = new(ActionHeader)
+		a = new(ActionHeaderOnly)
 	case ActionType_PushVlan:
 		a = new(ActionPush)
 	case ActionType_PopVlan:
@@ -100,7 +131,7 @@ func DecodeAction(data []byte) (Action, error) {
 	case ActionType_PushPbb:
 		a = new(ActionPush)
 	case ActionType_PopPbb:
-		a = new(ActionHeader)
+		a = new(ActionHeaderOnly)
 	case ActionType_Experimenter:
 		// For Experimenter message, the length of action should be at least 10 bytes,
 		// including type(2 byte), length(2 byte), vendor(4 byte), and subtype(2 byte)
